@@ -50,10 +50,11 @@ def write (_cx : Ctx) (p : BootP) (region : Bytes) : Out Bytes := do
   let o ← o.write p.vend
   pure o.buffer
 
-/-- `chaddr(const HWAddress<n>&)`: copies min(n, 16) bytes; the harness passes n = 6 or n = 16 -/
+/-- `chaddr(const HWAddress<n>&)`: copies min(n, 16) bytes and zeroes the rest of the 16-byte field (since 'fix:
+    BootP::chaddr did not zero the rest of the field …'); the harness passes n = 6 or n = 16 -/
 def setChaddr (h : Bytes) (v : String) : Out Bytes := do
   let b ← hexArg v
-  if b.length == 6 || b.length == 16 then pure (patch h 28 b) else .throw .stdOther
+  if b.length == 6 || b.length == 16 then pure (patch h 28 (b ++ List.replicate (16 - b.length) 0)) else .throw .stdOther
 
 /-- the setters of the fixed header; `none` = not a header setter -/
 def setHeader (h : Bytes) : List String → Option (Out Bytes)
